@@ -160,14 +160,18 @@ func (sr *sinkRegistry) newFileSinkFromPath(path string) (Sink, error) {
 
 func normalizeScheme(s string) (string, error) {
 	// https://tools.ietf.org/html/rfc3986#section-3.1
-	s = strings.ToLower(s)
-	if first := s[0]; 'a' > first || 'z' < first {
+	//
+	// Validate the scheme as written, before lower-casing it:
+	// strings.ToLower maps a few non-ASCII runes to ASCII letters (for
+	// example U+212A KELVIN SIGN to 'k'), which must not make an invalid
+	// scheme valid.
+	if first := s[0]; !isASCIILetter(first) {
 		return "", errors.New("must start with a letter")
 	}
 	for i := 1; i < len(s); i++ { // iterate over bytes, not runes
 		c := s[i]
 		switch {
-		case 'a' <= c && c <= 'z':
+		case isASCIILetter(c):
 			continue
 		case '0' <= c && c <= '9':
 			continue
@@ -176,5 +180,9 @@ func normalizeScheme(s string) (string, error) {
 		}
 		return "", fmt.Errorf("may not contain %q", c)
 	}
-	return s, nil
+	return strings.ToLower(s), nil
+}
+
+func isASCIILetter(c byte) bool {
+	return ('a' <= c && c <= 'z') || ('A' <= c && c <= 'Z')
 }
